@@ -96,6 +96,23 @@ def run(rep, tier, seed):
             if not text.strip() or ''.join(c.lower() for c in text) != text.lower():
                 continue
             cases.append((T, text, rng.random() < 0.5))
+    # names holding an operator word, taken apart by parentheses: the pieces are licenses of their own (one of them
+    # unknown), although the text without the parentheses would be the single known name
+    for T in ([('mit', [], False), ('mit or foo', [], False)],
+              [('GPL-2.0', [], False), ('GPL-2.0-or-later', ['GPL-2.0 or later'], False), ('bsd', [], False)],
+              [('later', [], False), ('gpl2+', ['gpl 2 or later'], False)],
+              [('gpl', [], False), ('cp', [], True), ('gpl-cp', ['gpl with cp exception'], False)],
+              [('x11', [], False), ('mit-x11', ['mit and x11'], False)]):
+        for name in [n for k, als, _ in T for n in [k] + als]:
+            ws = name.split()
+            for i, w in enumerate(ws):
+                if w.lower() in ('and', 'or', 'with') and 0 < i < len(ws) - 1:
+                    l, r = ' '.join(ws[:i]), ' '.join(ws[i + 1:])
+                    for text in ('(%s) %s %s' % (l, w, r), '%s %s (%s)' % (l, w, r), '(%s) %s (%s)' % (l, w, r),
+                                 'bsd and ((%s) %s %s)' % (l, w, r), '%s %s %s' % (l, w, r), '( %s %s %s )' % (l, w, r)):
+                        for st in (False, True):
+                            cases.append((T, text, st))
+                            rep.count('split_operator_names')
     cache = {}
     reqs = []
     for T, s, st in cases:
